@@ -250,6 +250,26 @@ def _direct_owner(fn, inner) -> bool:
     return True
 
 
+def func_vocabulary(node: ast.AST) -> set:
+    """the operations a function body applies: called names / methods, attributes read, and a few structural kinds"""
+    out = set()
+    todo = list(ast.iter_child_nodes(node))
+    while todo:
+        n = todo.pop()
+        if isinstance(n, ast.Call):
+            f = n.func
+            if isinstance(f, ast.Name):
+                out.add(f.id)
+            elif isinstance(f, ast.Attribute):
+                out.add('.' + f.attr)
+        elif isinstance(n, ast.Attribute) and isinstance(n.ctx, ast.Load):
+            out.add('.' + n.attr)
+        elif isinstance(n, (ast.ListComp, ast.SetComp, ast.DictComp, ast.GeneratorExp, ast.IfExp, ast.Lambda, ast.Starred, ast.While, ast.Try, ast.With, ast.Yield, ast.NamedExpr)):
+            out.add('<' + type(n).__name__ + '>')
+        todo.extend(ast.iter_child_nodes(n))
+    return out
+
+
 class Repo:
     """All python modules of the package, parsed."""
 
@@ -296,6 +316,22 @@ class Repo:
                         elif isinstance(n, ast.Attribute):
                             out.add(n.attr)
         return out
+
+    def new_vocabulary(self, relpath: str, qualname: str) -> set:
+        """operations the function applies that it did not apply in the confirmed tree (empty when unknown / unchanged)"""
+        try:
+            from .baseline import VOCAB
+        except ImportError:
+            return set()
+        for mn, m in self.modules.items():
+            if m.relpath == relpath:
+                f = m.funcs.get(qualname)
+                # nested helpers and methods are looked up under their own qualified name; expanded helpers count for their caller
+                base = VOCAB.get(mn, {}).get(qualname)
+                if f is None or base is None:
+                    return set()
+                return func_vocabulary(f.node) - set(base)
+        return set()
 
     # -- anchors ------------------------------------------------------------
     def mod(self, name: str) -> Module:
